@@ -824,7 +824,13 @@ func runCase(c caseT) (*runInfo, error) {
 		info.lists = append(info.lists, obs...)
 		sched.Go(ls.Name, func() {
 			if err := safely(ls.Name, func() {
-				w := wal.New(gv, splitStore{Store: wd.ws.View(ls.Name + "-reads"), list: lv}, wal.Logger(hx.Nop))
+				// readers are built with different read-concurrency settings: a listing returns up to the requested
+				// maximum whatever that option says
+				wopts := []wal.Option{wal.Logger(hx.Nop)}
+				if mc := []int{0, 1, 3, 8}[len(ls.Lists)%4]; mc > 0 {
+					wopts = append(wopts, wal.MaxConcurrency(mc))
+				}
+				w := wal.New(gv, splitStore{Store: wd.ws.View(ls.Name + "-reads"), list: lv}, wopts...)
 				for i, l := range ls.Lists {
 					o := obs[i]
 					snap := tokensOf(wd.snapshot())
@@ -892,7 +898,7 @@ func runCase(c caseT) (*runInfo, error) {
 	}
 
 	// quiescent listings by a fresh process
-	fw := wal.New(wd.gen.View("final"), wd.ws.View("final"), wal.Logger(hx.Nop))
+	fw := wal.New(wd.gen.View("final"), wd.ws.View("final"), wal.Logger(hx.Nop), wal.MaxConcurrency(2))
 	for i, l := range c.Final {
 		o := &listObs{what: fmt.Sprintf("final listing #%d %+v", i, l), from: l.resolve(tokensOf(all), wd.gen.Now()), max: l.Max, visible: all}
 		err, hung, panicked := hx.Guard(20*time.Second, func() error {
